@@ -225,6 +225,8 @@ class Repo:
                     tree = ast.parse(src, filename=p)
                 except SyntaxError as e:
                     raise AnalysisError(f"cannot parse {p}: {e}")
+                from . import normal
+                tree = normal.normalise(tree)  # one canonical spelling for every rule (docstrings, annotations, polarity, early returns, use-once temporaries)
                 rel = os.path.relpath(p, self.root)
                 m = Module(name, p, rel, src, tree, fn == "__init__.py")
                 self.modules[name] = m
